@@ -376,8 +376,15 @@ func runCase(c Case, ctx *hx.Ctx) *hx.Failure {
 				for _, o := range calls {
 					// pending, or cancelled and never answered (the connection still waits for that reply:
 					// a further reply then counts as the late reply to the abandoned query, not as a surplus one)
-					if o.conn == cl.conn && !o.answered && o != cl {
-						busy = true
+					if o == cl || o.answered {
+						continue
+					}
+					// (a cancelled query may have been re-sent on another idle connection by the transport's retry:
+					// every sighting counts, not only the first)
+					for _, sg := range w.Seen(o.name) {
+						if sg.Conn == cl.conn {
+							busy = true
+						}
 					}
 				}
 				if busy {
